@@ -3,8 +3,8 @@
 
    Model: coq/Model/Transcript.v.  [prover s] / [verifier s] are the sequences of RandomCoin operations performed by
    Prover::generate_proof and by verify()/perform_verification()/FriVerifier::new for a proof of shape s (all shapes:
-   single / multi segment, any numbers of constraints, assertions, composition columns, extension degree, FRI layers
-   0.., grinding, queries; no Lagrange-kernel column).  [run] executes a list symbolically: every challenge gets the
+   single / multi segment, with or without a Lagrange-kernel column whose GKR step draws any number g of elements, any
+   numbers of constraints, assertions, composition columns, extension degree, FRI layers 0.., grinding, queries).  [run] executes a list symbolically: every challenge gets the
    term it is derived from, [hist t] is the exact sequence of values absorbed into the seed t. *)
 From Coq Require Import List Arith Bool ZArith.
 From VBase Require Import MachInt.
@@ -74,6 +74,25 @@ Theorem C04_log_ok_accepts_model : forall (side : bool) s,
   log_ok side s (map fst (if side then verifier s else prover s)) = true.
 Proof. exact log_ok_generators. Qed.
 Print Assumptions C04_log_ok_accepts_model.
+
+(* observed uses (which values the GKR step / the AIR were handed): an accepted observation puts every observed GKR use on a
+   draw the protocol labels GkrRand and every observed auxiliary-randomness use on an AuxRand draw *)
+Theorem C04_log_ok_uses_sound : forall side s l us,
+  log_ok_uses side s l us = true ->
+  log_ok side s l = true /\ uses_ok (label (drawn_challenges side s) l) us = true.
+Proof. exact log_ok_uses_sound. Qed.
+Print Assumptions C04_log_ok_uses_sound.
+
+Theorem C04_uses_ok_spec : forall ls us, uses_ok ls us = true ->
+  forall i e lab, nth_error ls i = Some (e, lab) ->
+    match nth_error us i with
+    | Some UseGkr => exists j, lab = Some (GkrRand j)
+    | Some UseAux => exists j, lab = Some (AuxRand j)
+    | Some UseUnobserved => True
+    | None => False
+    end.
+Proof. exact uses_ok_spec. Qed.
+Print Assumptions C04_uses_ok_spec.
 
 (* ---- absorbed_is_carried -----------------------------------------------------------------------------------------
    Every absorbed value is a component of the serialized proof (or the verifier's own public inputs): mapping the
@@ -192,6 +211,13 @@ Theorem C04_example_wf_sat :
   (wf_trace_info (mkTi 20 9 12 4096 [7; 0; 255]%Z) /\ wf_trace_info (mkTi 1 0 0 8 [])) /\ wf_options (mkOpts 30 8 20 1 8 127).
 Proof. exact (conj wf_trace_info_sat wf_options_sat). Qed.
 Print Assumptions C04_example_wf_sat.
+
+(* Lagrange-kernel shape; the seeded change "verifier takes the auxiliary randomness before the GKR randomness" is rejected *)
+Theorem C04_example_lagrange_uses :
+  log_ok_uses false s2 (map fst (prover s2)) uses_s2_good = true
+  /\ log_ok_uses false s2 (map fst (prover s2)) uses_s2_swapped = false.
+Proof. exact (conj log_ok_uses_s2 mutant_aux_rand_before_gkr). Qed.
+Print Assumptions C04_example_lagrange_uses.
 
 Theorem C04_example_checker_accepts_model :
   log_ok false s0 good0 = true /\ log_ok true s0 good0_verifier = true
